@@ -34,7 +34,7 @@ DEFAULT_PROFILE = {
     "p_sstream": 0.25, "p_cstream": 0.15, "p_bidi": 0.15, "p_lro": 0.3, "p_raw_op": 0.08,
     "p_http": 0.9, "p_signature": 0.7, "p_routing": 0.25, "p_keyword_rpc": 0.08,
     "p_service_config": 0.8, "p_yaml": 0.3, "p_reserved_field": 0.08, "p_two_services": 0.25,
-    "p_foreign_request": 0.1, "p_shuffle_numbers": 0.2, "p_additional_binding": 0.25, "p_param_name_collision": 0.0, "p_stream_of_empty": 0.06, "p_stream_routing": 0.0, "p_routing_name_clash": 0.0, "p_required_optional": 0.0, "p_body_only_in_additional": 0.0,
+    "p_foreign_request": 0.1, "p_shuffle_numbers": 0.2, "p_additional_binding": 0.25, "p_param_name_collision": 0.0, "p_stream_of_empty": 0.06, "p_stream_routing": 0.0, "p_routing_name_clash": 0.0, "p_required_optional": 0.0, "p_body_only_in_additional": 0.0, "p_foreign_paged": 0.0,
     "p_auto_populate": 0.0, "p_google_api_ns": 0.0, "sig_variants": False, "p_multi_var_path": 0.0, "mixin_variants": False, "p_add_iam_methods": 0.0, "p_equal_sort_keys": 0.0, "p_reserved_path_var": 0.0, "p_local_empty": 0.0, "p_same_method_two_services": 0.0, "p_required_enum": 0.0, "p_custom_http_pattern": 0.0, "p_real_api": 0.04, "p_nested_name_ties": 0.15, "p_double_star_path": 0.0, "p_value_fields": 0.0, "p_mixed_foreign_io": 0.0, "common_file_names": ["resources"],
     "transports": ["grpc", "grpc+rest", "grpc+rest", "rest"],
     "p_numeric_enums": 0.3,
@@ -422,6 +422,15 @@ def _gen_methods(cx, pkg, main, svc, noun, res, enums, msgs):
         if cx.chance("p_signature"):
             m["signatures"] = ["parent"]
         svc["methods"].append(m)
+    if cx.chance("p_foreign_paged") and _unique_method(svc, f"List{noun}Sites"):
+        # a paginated RPC of the API's own whose request AND response come from a dependency package (pb2 classes, not
+        # proto-plus): google.cloud.location's List types, declared as an own RPC as pre-mixin APIs did
+        _add_location_dependency(cx)
+        m2 = {"name": f"List{noun}Sites", "input": ".google.cloud.location.ListLocationsRequest",
+              "output": ".google.cloud.location.ListLocationsResponse"}
+        if cx.chance("p_http"):
+            m2["http"] = {"verb": "get", "path": f"{pre}/{{name={pwild}}}/sites"}
+        svc["methods"].append(m2)
 
     if cx.chance("p_create"):
         fields = [{"name": "parent", "number": 1, "type": "string", "required": True, "child_ref": rtype},
@@ -959,6 +968,23 @@ def gen_service_config(rng, spec, p_named=0.7):
         # legal and inert: an entry that names no method at all (gRPC: applies to nothing), e.g. a forgotten default
         entries.insert(rng.randrange(len(entries) + 1), {"timeout": "45s"})
     return {"methodConfig": entries}
+
+
+def _add_location_dependency(cx):
+    """google/cloud/location/locations.proto as a dependency-only file of the spec (converted from the installed pb2
+    descriptor), so that the spec-based oracles can look its messages up like any other."""
+    if any(f["name"] == "google/cloud/location/locations.proto" for f in cx.files):
+        return
+    from google.cloud.location import locations_pb2
+    from google.protobuf import descriptor_pb2
+    from . import fromdesc
+    fdp = descriptor_pb2.FileDescriptorProto()
+    locations_pb2.DESCRIPTOR.CopyToProto(fdp)
+    dep = fromdesc.spec_from_files([fdp], [fdp.name])["files"][0]
+    dep["dependency_only"] = True
+    dep.pop("services", None)
+    dep["imports"] = list(fdp.dependency)
+    cx.files.insert(0, dep)
 
 
 def twin_spec(rng, spec):
